@@ -389,6 +389,25 @@ Theorem C01_fresh_v5_complete_quiescence : forall gA gB cn ca l,
 Proof. exact fresh_v5_complete_quiescence. Qed.
 Print Assumptions C01_fresh_v5_complete_quiescence.
 
+(* ... and for v3.1.1 *)
+Theorem C01_fresh_v311_complete_quiescence : forall gA gB cn ca l,
+  1 <= g_idmax gA -> 1 <= g_idmax gB -> role_client_ok gA = true -> role_server_ok gB = true ->
+  k_type cn = T_CONNECT -> k_ver cn = V311 -> k_flag cn = true ->
+  k_type ca = T_CONNACK -> k_ver ca = V311 -> k_rc ca = 0 -> k_flag ca = false ->
+  Forall good_act2 l ->
+  let A0 := set_auto_pub (conn_new gA V311) true in
+  let B0 := set_auto_pub (conn_new gB V311) true in
+  exists A1 e1 B1 e2 B2 e3 A2 e4 s1 s2,
+    step gA A0 (OSend cn) = Ok (A1, e1, []) /\ deliver gB B0 cn = Ok (B1, e2) /\
+    step gB B1 (OSend ca) = Ok (B2, e3, []) /\ deliver gA A1 ca = Ok (A2, e4) /\
+    errors e1 = [] /\ errors e2 = [] /\ errors e3 = [] /\ errors e4 = [] /\
+    run_sched2 gA gB (mkBi A2 B2 [] [] [] [] [] []) l = Some s1 /\
+    run_sched2 gA gB s1 (drain2 (measure2 s1)) = Some s2 /\
+    qab s2 = [] /\ qba s2 = [] /\ delB s2 = pubA s1 /\ delA s2 = pubB s1 /\
+    (forall y, is_used (ea s2) y = false) /\ (forall y, is_used (eb s2) y = false).
+Proof. exact fresh_v311_complete_quiescence. Qed.
+Print Assumptions C01_fresh_v311_complete_quiescence.
+
 (* MANUAL RESPONSES (Conn/PairManual.v; auto_pub_response off, v3.1.1): the library requests nothing by itself; the
    applications send PUBACK / PUBREC / PUBREL / PUBCOMP through the ordinary send call.  From every admissible pair of
    states each call succeeds without an error event, requests exactly the packet it was given, the message is notified
